@@ -138,6 +138,7 @@ func c07(r *rt.Run) {
 		{"strings-names", c07Strings},
 		{"reducers", c07Reducers},
 		{"time-duration-float", c07Time},
+		{"list-membership", c07Membership},
 	}
 	rt.ForRange(len(laws), func(i int) {
 		if only != "" && only != laws[i].name {
@@ -148,7 +149,7 @@ func c07(r *rt.Run) {
 	})
 	r.Extra["states"] = r.Get("evaluations")
 	r.Extra["distinct_nontrivial"] = r.Get("evaluations")
-	r.Finish("8 law families (the eighth: time, duration, interval, float, tuple and distance functions over 24 boundary instants and every pair of them), each over the full product of small argument domains (11 boundary ints, 6 elements, all lists up to length 3, maps/structs up to 2 entries in every argument order, strings/names, all permutations of every multiset of <=4 rows); " +
+	r.Finish("9 law families (the ninth: membership of an independently built copy of every value of a 17-value universe in every list of <= 3 such values; the eighth: time, duration, interval, float, tuple and distance functions over 24 boundary instants and every pair of them), each over the full product of small argument domains (11 boundary ints, 6 elements, all lists up to length 3, maps/structs up to 2 entries in every argument order, strings/names, all permutations of every multiset of <=4 rows); " +
 		"every evaluation is a distinct argument tuple and compared with an independent computation")
 }
 
